@@ -19,8 +19,11 @@
 //!   a request-response protocol, driven by a fault script. After every step (settled) the new
 //!   events of every observer are printed: application of A, user protocols of A, application of
 //!   B, user protocols of B. At the end both applications call `dial(peer)`.
-//!   case  = 1 n ka nsteps (op a b c)*
-//!           op: 10 protocol b of node a exits (b = n+1: the notification handle is dropped, n+2:
+//!   case  = 1 n cfg nsteps (op a b c)*      cfg: bit 0 = keep-alive 1 s (idle-expiry scenarios),
+//!           bits 1-2 = transport (0 TCP, 1 WebSocket, 2 QUIC — only with the `quic` feature)
+//!           op: 14 A dials B while protocol b of node a exits (c = oracle: 0 the connection was
+//!           accepted first, else 1 + 2*maskA + 256*maskB; the racing observer is not printed) |
+//!           10 protocol b of node a exits (b = n+1: the notification handle is dropped, n+2:
 //!           the request-response handle) | 11 A dials B (b, c = oracle: protocols of A / B that
 //!           logged Established, filled in when the node has a dead protocol) | 12 protocol b of node
 //!           a opens a substream | 13 the same and exits immediately | 15 protocol b of node a
@@ -40,10 +43,12 @@ use litep2p::{
         verif::{InnerTransportEvent, ProtocolContext, ProtocolSet, TransportManagerEvent},
         Direction, SubstreamKeepAlive, TransportEvent, TransportService, UserProtocol,
     },
-    transport::{tcp::config::Config as TcpConfig, Endpoint},
+    transport::{tcp::config::Config as TcpConfig, websocket::config::Config as WsConfig, Endpoint},
     types::{protocol::ProtocolName, ConnectionId, SubstreamId},
     Error, Litep2p, Litep2pEvent, PeerId,
 };
+#[cfg(feature = "quic")]
+use litep2p::transport::quic::config::Config as QuicConfig;
 use multiaddr::{Multiaddr, Protocol};
 use std::{
     collections::HashMap,
@@ -405,7 +410,8 @@ struct Node {
 
 impl Node {
     /// n common user protocols + one only this node has + notification + request-response
-    fn start(n: usize, solo: &str, ka: Duration, tick: Tick) -> Node {
+    /// transport: 0 TCP, 1 WebSocket, 2 QUIC (only with the `quic` feature of the harness)
+    fn start(n: usize, solo: &str, ka: Duration, transport: u64, tick: Tick) -> Node {
         let rt = tokio::runtime::Builder::new_multi_thread().worker_threads(1).enable_all().build().unwrap();
         let (tx, rx) = std::sync::mpsc::channel();
         let tick2 = tick.clone();
@@ -413,14 +419,29 @@ impl Node {
         let (ctl_tx, mut ctl_rx) = mpsc::unbounded_channel::<Ctl>();
         rt.spawn(async move {
             let tick = tick2;
-            let mut builder = ConfigBuilder::new()
-                .with_keypair(Keypair::generate())
-                .with_tcp(TcpConfig {
+            let mut builder = ConfigBuilder::new().with_keypair(Keypair::generate()).with_keep_alive_timeout(ka);
+            #[cfg(feature = "quic")]
+            if transport == 2 {
+                builder = builder.with_quic(QuicConfig {
+                    listen_addresses: vec!["/ip4/127.0.0.1/udp/0/quic-v1".parse().unwrap()],
+                    ..Default::default()
+                });
+            }
+            builder = if transport == 2 {
+                builder
+            } else if transport == 1 {
+                builder.with_websocket(WsConfig {
+                    listen_addresses: vec!["/ip4/127.0.0.1/tcp/0/ws".parse().unwrap()],
+                    reuse_port: false,
+                    ..Default::default()
+                })
+            } else {
+                builder.with_tcp(TcpConfig {
                     listen_addresses: vec!["/ip4/127.0.0.1/tcp/0".parse().unwrap()],
                     reuse_port: false,
                     ..Default::default()
                 })
-                .with_keep_alive_timeout(ka);
+            };
             let mut plogs = Vec::new();
             let mut pcmd = Vec::new();
             for i in 0..=n {
@@ -472,20 +493,30 @@ impl Node {
 
     /// new events of every observer since the last call: (cnt ev*) per observer; returns the set of
     /// user protocols that logged Established
-    fn dump(&mut self, out: &mut Vec<u64>) -> u64 {
+    fn dump(&mut self, out: &mut Vec<u64>, blank: Option<usize>) -> (u64, bool) {
         let mut mask = 0;
+        let mut app_est = false;
         let logs: Vec<Log> = std::iter::once(self.app.clone()).chain(self.plogs.iter().cloned()).collect();
         for (k, log) in logs.iter().enumerate() {
             let l = log.lock().unwrap();
             let new = &l[self.seen[k]..];
-            out.push(new.len() as u64);
-            out.extend_from_slice(new);
-            if k > 0 && new.contains(&1) {
-                mask |= 1 << (k - 1);
+            if blank == Some(k) {
+                // the observer races with the step (a protocol exiting while the connection is
+                // announced may or may not read its last events): not printed
+                out.push(0);
+            } else {
+                out.push(new.len() as u64);
+                out.extend_from_slice(new);
+                if k > 0 && new.contains(&1) {
+                    mask |= 1 << (k - 1);
+                }
+                if k == 0 && new.contains(&1) {
+                    app_est = true;
+                }
             }
             self.seen[k] = l.len();
         }
-        mask
+        (mask, app_est)
     }
 
     fn alive(&self) -> bool {
@@ -551,7 +582,7 @@ fn socket_addr(a: &Multiaddr) -> std::net::SocketAddr {
     for p in a.iter() {
         match p {
             Protocol::Ip4(i) => ip = Some(std::net::IpAddr::V4(i)),
-            Protocol::Tcp(p) => port = p,
+            Protocol::Tcp(p) | Protocol::Udp(p) => port = p,
             _ => {}
         }
     }
@@ -588,18 +619,33 @@ pub const KA_SHORT_MS: u64 = 1000;
 
 async fn run_e2e(mut case: Vec<u64>) -> (Vec<u64>, Vec<u64>) {
     let n = case[1] as usize;
-    let ka = if case[2] == 1 { Duration::from_millis(KA_SHORT_MS) } else { Duration::from_secs(60) };
+    // case[2]: bit 0 = short keep-alive (idle-expiry scenarios), bit 1 = WebSocket instead of TCP
+    let ka = if case[2] & 1 == 1 { Duration::from_millis(KA_SHORT_MS) } else { Duration::from_secs(60) };
+    let transport = (case[2] >> 1) & 3;
+    if transport == 3 || (transport == 2 && !cfg!(feature = "quic")) {
+        return (case, vec![0]);
+    }
     let nsteps = case[3] as usize;
     if n == 0 || n > 4 || case.len() != 4 + 4 * nsteps {
         return (case, vec![0]);
     }
     let tick = Tick(Default::default());
     let (t1, t2) = (tick.clone(), tick.clone());
-    let mut b = tokio::task::spawn_blocking(move || Node::start(n, "/c07/solo/b", ka, t1)).await.unwrap();
+    let mut b = tokio::task::spawn_blocking(move || Node::start(n, "/c07/solo/b", ka, transport, t1)).await.unwrap();
     let proxy = Proxy::start(socket_addr(&b.addr)).await;
-    let mut a = tokio::task::spawn_blocking(move || Node::start(n, "/c07/solo/a", ka, t2)).await.unwrap();
-    let b_via_proxy: Multiaddr = format!("/ip4/127.0.0.1/tcp/{}/p2p/{}", proxy.port, b.peer).parse().unwrap();
-    let a_direct: Multiaddr = format!("/ip4/127.0.0.1/tcp/{}/p2p/{}", socket_addr(&a.addr).port(), a.peer).parse().unwrap();
+    let mut a = tokio::task::spawn_blocking(move || Node::start(n, "/c07/solo/a", ka, transport, t2)).await.unwrap();
+    // A reaches B through the proxy (QUIC: directly, there is no UDP proxy; scripts do not cut the link then)
+    let addr_of = |port: u16, peer: PeerId| -> Multiaddr {
+        match transport {
+            0 => format!("/ip4/127.0.0.1/tcp/{port}/p2p/{peer}"),
+            1 => format!("/ip4/127.0.0.1/tcp/{port}/ws/p2p/{peer}"),
+            _ => format!("/ip4/127.0.0.1/udp/{port}/quic-v1/p2p/{peer}"),
+        }
+        .parse()
+        .unwrap()
+    };
+    let b_via_proxy = addr_of(if transport == 2 { socket_addr(&b.addr).port() } else { proxy.port }, b.peer);
+    let a_direct = addr_of(socket_addr(&a.addr).port(), a.peer);
     let _ = a.ctl.send(Ctl::AddAddr(b.peer, b_via_proxy.clone()));
     let _ = b.ctl.send(Ctl::AddAddr(a.peer, a_direct));
     let mut tr = vec![1u64];
@@ -658,6 +704,32 @@ async fn run_e2e(mut case: Vec<u64>) -> (Vec<u64>, Vec<u64>) {
                     first = Duration::from_millis(2500);
                 }
             }
+            14 => {
+                // A dials B while protocol y of node x exits: either order is a legitimate outcome
+                let (tx, rx) = oneshot::channel();
+                let _ = a.ctl.send(Ctl::DialAddr(b_via_proxy.clone(), tx));
+                rc = ask(rx).await.unwrap_or(8);
+                // the handshake takes 30-50 ms here (more under load): delays from 0 to 210 ms produce both orders
+                let delay = ((k as u64 * 3 + y as u64 * 5 + case.len() as u64) % 8) * 30;
+                if delay > 0 {
+                    tokio::time::sleep(Duration::from_millis(delay)).await;
+                }
+                let node = if x == 0 { &mut a } else { &mut b };
+                if node.alive() {
+                    if y <= n {
+                        if let Some(tx) = node.pcmd[y].take() {
+                            let _ = tx.send(PCmd::Exit);
+                        }
+                    } else if y == n + 1 {
+                        node.notif.take();
+                    } else if y == n + 2 {
+                        node.rr.take();
+                    }
+                }
+                if rc == 0 {
+                    first = Duration::from_millis(2500);
+                }
+            }
             16 => {
                 proxy.cut();
                 first = Duration::from_millis(1500);
@@ -676,11 +748,17 @@ async fn run_e2e(mut case: Vec<u64>) -> (Vec<u64>, Vec<u64>) {
         }
         settle(&tick, before, first).await;
         tr.push(rc);
-        let ma = a.dump(&mut tr);
-        let mb = b.dump(&mut tr);
+        let blank = |node: u64| if op == 14 && x == node && y <= n { Some(y + 1) } else { None };
+        let (ma, ea) = a.dump(&mut tr, blank(0));
+        let (mb, eb) = b.dump(&mut tr, blank(1));
         if op == 11 {
             case[6 + 4 * k] = if a.any_dead() { ma } else { 0 };
             case[7 + 4 * k] = if b.any_dead() { mb } else { 0 };
+        }
+        if op == 14 {
+            // oracle: did the accept of the node whose protocol exits come first (0) or the exit (1)?
+            let accepted = if x == 0 { ea } else { eb };
+            case[7 + 4 * k] = if accepted { 0 } else { 1 | (ma << 1) | (mb << 8) };
         }
     }
     // afterwards: can the peer be dialed again?
@@ -706,7 +784,7 @@ struct GenSt {
     b_up: bool,
 }
 
-fn gen_e2e(rng: &mut Rng, thorough: bool) -> Vec<u64> {
+fn gen_e2e(rng: &mut Rng, thorough: bool, transports: &[u64]) -> Vec<u64> {
     let n = rng.range(1, 3) as usize;
     let short = rng.chance(25);
     let mut st = GenSt { alive: [vec![true; n + 3], vec![true; n + 3]], connected: false, b_up: true };
@@ -759,6 +837,26 @@ fn gen_e2e(rng: &mut Rng, thorough: bool) -> Vec<u64> {
                     // an action without a connection: refused
                     let x = rng.below(2);
                     steps.push([if rng.chance(50) { 12 } else { 15 }, x, rng.below(n as u64 + 1), 0]);
+                } else if r < 32 && st.b_up && !dead(&st, 0) && !dead(&st, 1) {
+                    // a protocol exits during the handshake; whichever comes first, only actions
+                    // that make sense in both outcomes follow
+                    let x = rng.below(2) as usize;
+                    let y = rng.below(n as u64 + 3) as usize;
+                    st.alive[x][y] = false;
+                    steps.push([14, x as u64, y as u64, 0]);
+                    for _ in 0..rng.below(3) {
+                        let x = rng.below(2) as usize;
+                        let live: Vec<usize> = (0..=n).filter(|&i| st.alive[x][i]).collect();
+                        if live.is_empty() {
+                            break;
+                        }
+                        match rng.below(3) {
+                            0 => steps.push([12, x as u64, rng.pick(&live) as u64, 0]),
+                            1 => steps.push([15, x as u64, rng.pick(&live) as u64, 0]),
+                            _ => steps.push([16, 0, 0, 0]),
+                        }
+                    }
+                    stop = true;
                 } else if st.b_up {
                     steps.push([11, 0, 0, 0]);
                     if dead(&st, 0) || dead(&st, 1) {
@@ -810,8 +908,15 @@ fn gen_e2e(rng: &mut Rng, thorough: bool) -> Vec<u64> {
             }
         }
     }
-    let mut c = vec![1, n as u64, short as u64, steps.len() as u64];
-    for s in steps {
+    let transport = rng.pick(transports);
+    let mut c = vec![1, n as u64, short as u64 + 2 * transport, steps.len() as u64];
+    for mut s in steps {
+        if transport == 2 && s[0] == 16 {
+            s = [15, 0, 0, 0]; // no proxy in front of a QUIC node: close from A instead of cutting
+        }
+        if transport == 2 && s[0] == 18 {
+            s = [15, 1, 0, 0]; // a killed QUIC peer is noticed only after the idle timeout: close from B
+        }
         c.extend(s);
     }
     c
@@ -878,13 +983,16 @@ pub fn main(args: &Args) {
         cases = read_cases(Path::new(d));
     }
     // `--cases` counts report-level cases; one end-to-end scenario is run per `e2e-every` of them
+    // transports of the end-to-end stream: TCP twice as often as WebSocket; `--quic 1` (harness built
+    // with the `quic` feature) runs every scenario over QUIC instead
+    let transports: Vec<u64> = if args.u64("quic", 0) == 1 { vec![2] } else { vec![0, 0, 1] };
     let every = args.u64("e2e-every", if thorough { 15 } else { 12 }).max(1);
     for i in 0..ncases {
         let mut r = rng.fork();
         cases.push(gen_unit(&mut r));
         if i % every == 0 {
             let mut r = rng.fork();
-            cases.push(gen_e2e(&mut r, thorough));
+            cases.push(gen_e2e(&mut r, thorough, &transports));
         }
     }
     run_many(&rt, cases, par, &mut out);
